@@ -8,7 +8,7 @@ byte for byte (content, st_size, exit status, file creation) with `libdecode`
 (harness/libdecode.c), a small program that performs the documented decode
 with the public liblzma API of the same tree.  A sample is repeated with the
 ASan+UBSan tools where only sanitizer events count."""
-import concurrent.futures, fcntl, hashlib, os, random, re, shutil, subprocess
+import concurrent.futures, fcntl, hashlib, os, random, re, shutil, subprocess, sys, time
 
 import build, core
 from models import cli_decode as M
@@ -224,7 +224,45 @@ class Sink:
             return f.read(), st
 
 
-def run_tool(argv, stdin_path=None, stdout=None, cwd=None, env=None):
+def run_tool(argv, stdin_path=None, stdout=None, cwd=None, env=None, slow_seed=None):
+    if stdin_path and slow_seed is not None:
+        # standard input is a pipe fed by a writer that pauses a few times (the tools then see short reads, and xz -
+        # whose stdin is non-blocking - EAGAIN)
+        import threading
+        data = open(stdin_path, "rb").read()
+        rng = random.Random(slow_seed)
+        cuts = sorted(set(rng.randrange(0, len(data) + 1) for _ in range(rng.randint(1, 4))))
+        rfd, wfd = os.pipe()
+        try:
+            p = subprocess.Popen(argv, stdin=rfd, stdout=subprocess.PIPE if stdout is None else stdout,
+                                 stderr=subprocess.PIPE, cwd=cwd, env=env or ENV)
+        finally:
+            os.close(rfd)
+
+        def feed():
+            try:
+                pos = 0
+                for c in cuts + [len(data)]:
+                    while pos < c:
+                        pos += os.write(wfd, data[pos:min(pos + 60000, c)])
+                    time.sleep(rng.uniform(0.02, 0.05))
+            except OSError as ex:
+                feed_err.append(repr(ex))
+            finally:
+                os.close(wfd)
+        feed_err = []
+        t = threading.Thread(target=feed, daemon=True)
+        t.start()
+        try:
+            so, se = p.communicate(timeout=TIMEOUT)
+            t.join(5)
+            if feed_err and os.environ.get("VERIF_DEBUG_FEED"):
+                sys.stderr.write("feed error: %s argv=%s\n" % (feed_err, argv))
+            return p.returncode, (so if stdout is None else b""), se.decode("utf-8", "replace"), False
+        except subprocess.TimeoutExpired:
+            p.kill()
+            so, se = p.communicate()
+            return -9, b"", (se or b"").decode("utf-8", "replace"), True
     fin = open(stdin_path, "rb") if stdin_path else subprocess.DEVNULL
     try:
         r = subprocess.run(argv, stdin=fin, stdout=subprocess.PIPE if stdout is None else stdout,
@@ -269,8 +307,11 @@ def decode_run(E, R, idx, rng, cdir, tag, data, suffix, tool, sink_kind, o, info
         sink = Sink(sink_kind, rng, rdir, B, len(D))
         how = sink.how
         fl0 = sink.flags()
+        slow = rng.getrandbits(32) if (use_stdin and rng.random() < 0.5) else None
+        if slow is not None:
+            R.count("stdin_pipe_from_pausing_writer")
         rc, so, se, to = run_tool(argv, stdin_path=inp if use_stdin else None, stdout=sink.fd, cwd=rdir,
-                                  env=ASAN_ENV if flavour == "asan" else None)
+                                  env=ASAN_ENV if flavour == "asan" else None, slow_seed=slow)
     R.evals += 1
     R.count("runs_" + tool)
     R.count("sink_" + sink_kind)
